@@ -1,20 +1,25 @@
 (* C09 -- Dataset import is faithful to the table.
 
-   Statements only; every proof is [exact lemma] (lemmas in Csv/CsvProofs.v),
+   Statements only; every proof is [exact lemma] (lemmas in Csv/*Proofs.v),
    about the executable model Csv/CsvDefs.v of utility/pocket_csv.h,
-   kernel/gp/src/dataframe.cc, category_set.cc and problem.cc, which is run
-   against the real code on every check (harness/h_csv.cc).  Text = list of
-   bytes; strtod-based is_number/stod/stoi are oracles (universally quantified
-   function arguments). *)
+   kernel/gp/src/dataframe.cc, category_set.cc, problem.cc::setup_terminals and
+   src_interpreter::fetch_var, which is run against the real code on every check
+   (harness/h_csv.cc).  Text = list of bytes.  The model is in checked form, so
+   "= Ok ..." also says: no exception, no out-of-bounds access.  The strtod-based
+   is_number / stod / stoi are ORACLES: universally quantified function
+   arguments.  [fixed_v] is the repaired tree (see Props/Refuted_C09.v for what
+   fails on the pinned one).  All theorems are for tables of ANY size. *)
 From Coq Require Import ZArith List Bool.
-From VV Require Import Csv.CsvDefs Csv.CsvProofs.
+From VV Require Import Csv.CsvDefs Csv.CsvProofs Csv.IngestProofs Csv.TableProofs Csv.TextProofs
+  Csv.SniffProofs Csv.TopProofs.
 Import ListNotations.
 Local Open Scope Z_scope.
 
-(* Quoted fields with embedded delimiters and doubled quotes are decoded:
-   parsing the RFC-4180 rendering of ANY record (any number of fields, any
-   text without NUL/CR/LF, any usual delimiter) gives the record back
-   (trimmed when the dialect asks for trimming). *)
+(* ------------------------------------------------------------------ the line parser *)
+(* Quoted fields with embedded delimiters and doubled quotes are decoded: parsing the
+   RFC-4180 rendering of ANY record (any number of fields, any text without
+   NUL/CR/LF, any usual delimiter) gives the record back (trimmed when the dialect
+   asks for trimming). *)
 Theorem C09_parse_render : forall dl fields,
   quoting dl = REMOVE_QUOTES -> usual_delimiter (delimiter dl) ->
   fields <> [] -> Forall ok_field fields ->
@@ -22,8 +27,227 @@ Theorem C09_parse_render : forall dl fields,
 Proof. exact parse_render_lemma. Qed.
 Print Assumptions C09_parse_render.
 
-(* non-vacuity: a record with an embedded delimiter, doubled quotes and
-   leading/trailing blanks *)
+(* The record iterator yields the rows of a rendered table, in order (a rendered line
+   that is blank -- e.g. a single empty cell -- is skipped by the reader, hence the
+   third conjunct of the hypothesis). *)
+Theorem C09_records_render_table : forall dl flt rows,
+  quoting dl = REMOVE_QUOTES -> usual_delimiter (delimiter dl) ->
+  Forall (fun r => r <> [] /\ Forall ok_field r /\ blank (render_line (delimiter dl) r) = false) rows ->
+  records dl flt (render_table (delimiter dl) rows) = filter_map flt (map (map (field_out dl)) rows).
+Proof. exact records_render_table_lemma. Qed.
+Print Assumptions C09_records_render_table.
+
+(* Rows rejected by the filter are absent, the others are kept in order (any text). *)
+Theorem C09_filtered_rows_absent : forall dl (flt : filter_t) (keep : record -> bool) text,
+  (forall r, flt r = (if keep r then Some r else None)) ->
+  records dl flt text = filter keep (records dl no_filter text).
+Proof. exact filtered_rows_absent_pure. Qed.
+Print Assumptions C09_filtered_rows_absent.
+
+(* ------------------------------------------------------------------ the output column *)
+(* std::rotate(begin, begin+k, begin+k+1): the designated column moves to the front and
+   the inputs are the other columns in their original order. *)
+Theorem C09_rotate_output_front : forall s r k, (k < length r)%nat ->
+  exists out rest, rotate_front s r k = Ok (out :: rest) /\ nth_error r k = Some out /\
+    length rest = (length r - 1)%nat /\
+    forall j, nth_error rest j = if Nat.ltb j k then nth_error r j else nth_error r (S j).
+Proof. exact rotate_output_front_lemma. Qed.
+Print Assumptions C09_rotate_output_front.
+
+(* ------------------------------------------------------------------ class labels *)
+Theorem C09_encode_injective : forall m l1 l2, wf_classes m ->
+  let (i1, m1) := encode m l1 in
+  let (i2, m2) := encode m1 l2 in
+  (i1 = i2 <-> l1 = l2).
+Proof. exact encode_injective_lemma. Qed.
+Print Assumptions C09_encode_injective.
+
+Theorem C09_encode_first_appearance : forall labels seen,
+  snd (encode_all (numbered seen) labels) = numbered (first_appearance seen labels).
+Proof. exact encode_first_appearance_lemma. Qed.
+Print Assumptions C09_encode_first_appearance.
+
+Theorem C09_class_name_encode : forall m l, wf_classes m ->
+  class_name (snd (encode m l)) (fst (encode m l)) = l.
+Proof. exact class_name_encode_lemma. Qed.
+Print Assumptions C09_class_name_encode.
+
+(* [wf_classes] is an invariant of the reader: it holds initially and encode keeps it *)
+Theorem C09_classes_wellformed : wf_classes [] /\ forall m l, wf_classes m -> wf_classes (snd (encode m l)).
+Proof. exact (conj wf_classes_nil encode_wf). Qed.
+Print Assumptions C09_classes_wellformed.
+
+(* ------------------------------------------------------------------ one example per row *)
+(* A typed rectangular table (TableProofs): [n] arranged columns (output first), a kind
+   per column -- KVoid (always blank), KNum (every cell a number that stod converts),
+   KText (any text; in the first data row non-blank and not a number; in column 0 =
+   class labels, never a number).  [spec_rows] is the property's right-hand side: per
+   row, inputs = the cells of the non-output, non-void columns in their original order,
+   numbers as [VDouble (stod (trim cell))], text as [VString (trim cell)], output = the
+   designated column (number, or class id through [encode]), [VVoid] without output.
+
+   For ANY such table, ANY output index or none, the read_csv loop returns exactly
+   one example per data row, in order, equal to the specification; column domains are
+   the kinds'.  (Loop level: the records are what the parser yields.) *)
+Theorem C09_one_example_per_row_in_order :
+  forall (is_number : bytes -> bool) (stod stoi : bytes -> conv) (n : nat), (1 <= n)%nat ->
+  forall (kinds : nat -> kind) (oi : option nat) (r1 : record) (rest : list record),
+  row_ok is_number stod n kinds true (arrange oi r1) ->
+  Forall (fun r => row_ok is_number stod n kinds false (arrange oi r)) rest ->
+  (forall k, oi = Some k -> Forall (fun r => (k < length r)%nat) (r1 :: rest)) ->
+  exists df,
+    ingest is_number stod stoi fixed_v oi false (r1 :: rest) O empty_df = Ok df /\
+    dataset df = fst (spec_rows stod n kinds [] (map (arrange oi) (r1 :: rest))) /\
+    classes df = snd (spec_rows stod n kinds [] (map (arrange oi) (r1 :: rest))) /\
+    length (columns df) = n /\
+    (forall j c, nth_error (columns df) j = Some c -> c_domain c = dom_of j (kinds j) /\ c_name c = []).
+Proof. exact one_example_per_row_in_order_lemma. Qed.
+Print Assumptions C09_one_example_per_row_in_order.
+
+(* With a header row: same, and the column names are the (trimmed) header cells, output
+   column first. *)
+Theorem C09_header_names :
+  forall (is_number : bytes -> bool) (stod stoi : bytes -> conv) (n : nat), (1 <= n)%nat ->
+  forall (kinds : nat -> kind) (oi : option nat) (h r1 : record) (rest : list record),
+  length (arrange oi h) = n ->
+  row_ok is_number stod n kinds true (arrange oi r1) ->
+  Forall (fun r => row_ok is_number stod n kinds false (arrange oi r)) rest ->
+  (forall k, oi = Some k -> Forall (fun r => (k < length r)%nat) (h :: r1 :: rest)) ->
+  exists df,
+    ingest is_number stod stoi fixed_v oi true (h :: r1 :: rest) O empty_df = Ok df /\
+    dataset df = fst (spec_rows stod n kinds [] (map (arrange oi) (r1 :: rest))) /\
+    classes df = snd (spec_rows stod n kinds [] (map (arrange oi) (r1 :: rest))) /\
+    length (columns df) = n /\
+    (forall j c, nth_error (columns df) j = Some c ->
+       c_domain c = dom_of j (kinds j) /\ c_name c = trim (nth j (arrange oi h) [])).
+Proof. exact header_names. Qed.
+Print Assumptions C09_header_names.
+
+(* From the TEXT: reading the RFC-4180 rendering of a typed table with explicit settings
+   is [finish_csv] of exactly that frame (finish_csv = the final is_valid()/non-empty test
+   of read_csv: Ok df, or insufficient_data e.g. for a single class label). *)
+Theorem C09_read_csv_rendered_table_header :
+  forall is_number stod stoi n, (1 <= n)%nat -> forall kinds dl oi h r1 rest,
+  explicit_dialect dl true ->
+  Forall (renderable (delimiter dl)) (h :: r1 :: rest) ->
+  length (arrange oi (map (field_out dl) h)) = n ->
+  row_ok is_number stod n kinds true (arrange oi (map (field_out dl) r1)) ->
+  Forall (fun r => row_ok is_number stod n kinds false (arrange oi r)) (parsed dl rest) ->
+  (forall k, oi = Some k -> Forall (fun r => (k < length r)%nat) (h :: r1 :: rest)) ->
+  exists df,
+    read_csv is_number stod stoi fixed_v (render_table (delimiter dl) (h :: r1 :: rest))
+             {| p_dialect := dl; p_filter := no_filter; p_output_index := oi |} = finish_csv df
+    /\ dataset df = fst (spec_rows stod n kinds [] (map (arrange oi) (parsed dl (r1 :: rest))))
+    /\ classes df = snd (spec_rows stod n kinds [] (map (arrange oi) (parsed dl (r1 :: rest))))
+    /\ length (columns df) = n
+    /\ (forall j c, nth_error (columns df) j = Some c ->
+          c_domain c = dom_of j (kinds j) /\ c_name c = trim (nth j (arrange oi (map (field_out dl) h)) [])).
+Proof. exact read_csv_rendered_table_header_lemma. Qed.
+Print Assumptions C09_read_csv_rendered_table_header.
+
+Theorem C09_read_csv_rendered_table :
+  forall is_number stod stoi n, (1 <= n)%nat -> forall kinds dl oi r1 rest,
+  explicit_dialect dl false ->
+  Forall (renderable (delimiter dl)) (r1 :: rest) ->
+  row_ok is_number stod n kinds true (arrange oi (map (field_out dl) r1)) ->
+  Forall (fun r => row_ok is_number stod n kinds false (arrange oi r)) (parsed dl rest) ->
+  (forall k, oi = Some k -> Forall (fun r => (k < length r)%nat) (r1 :: rest)) ->
+  exists df,
+    read_csv is_number stod stoi fixed_v (render_table (delimiter dl) (r1 :: rest))
+             {| p_dialect := dl; p_filter := no_filter; p_output_index := oi |} = finish_csv df
+    /\ dataset df = fst (spec_rows stod n kinds [] (map (arrange oi) (parsed dl (r1 :: rest))))
+    /\ classes df = snd (spec_rows stod n kinds [] (map (arrange oi) (parsed dl (r1 :: rest))))
+    /\ length (columns df) = n
+    /\ (forall j c, nth_error (columns df) j = Some c -> c_domain c = dom_of j (kinds j) /\ c_name c = []).
+Proof. exact read_csv_rendered_table_lemma. Qed.
+Print Assumptions C09_read_csv_rendered_table.
+
+(* ------------------------------------------------------------------ variables *)
+(* The variable generated for column i reads, from ANY example built by to_example with
+   the same columns, the converted cell i of the record -- for ANY columns (void columns
+   included), ANY record of the right width, weak or strong typing. *)
+Theorem C09_variable_i_reads_column_i :
+  forall is_number stod stoi df strong vars v add ex df',
+  setup_terminals fixed_v (columns df) strong = Ok vars ->
+  length v = length (columns df) ->
+  to_example is_number stod stoi df v add = Ok (ex, df') ->
+  length vars = length (e_input ex) /\
+  forall i, (1 <= i < length v)%nat -> live (columns df) i = true ->
+    exists c vi x, nth_error (columns df) i = Some c /\
+      nth_error vars (rank (columns df) i) = Some vi /\
+      v_name vi = (if is_nil (c_name c) then 88 :: to_string i else c_name c) /\
+      convert stod stoi (trim (nth i v [])) (c_domain c) = Ok x /\
+      run_variable vi ex = Ok x.
+Proof. exact variable_i_reads_column_i_lemma. Qed.
+Print Assumptions C09_variable_i_reads_column_i.
+
+(* ------------------------------------------------------------------ sniffer *)
+(* every scanned line has the same count k >= 1 of d and no other candidate has a
+   constant positive count => the sniffer answers d *)
+Theorem C09_guess_delimiter_unambiguous : forall text lines d k,
+  In d candidates_sorted -> (1 <= k)%nat ->
+  scanned_lines text lines <> [] ->
+  (forall l, In l (scanned_lines text lines) -> count_char d l = k) ->
+  (forall c, In c candidates_sorted -> c <> d ->
+     ~ (exists k', (1 <= k')%nat /\ forall l, In l (scanned_lines text lines) -> count_char c l = k')) ->
+  guess_delimiter text lines = d.
+Proof. exact guess_delimiter_unambiguous_lemma. Qed.
+Print Assumptions C09_guess_delimiter_unambiguous.
+
+(* PARTIAL: header detection is a voting heuristic; agreement with the explicit setting
+   is proved only for the unambiguous families below.  The full statement "sniffed
+   has_header = the truth for every table with a header of names over typed data" is
+   false (Props/Refuted_C09.v).
+   Family (a): non-numeric names over numeric, letter-free data => HAS_HEADER. *)
+Theorem C09_has_header_named_numeric_partial :
+  forall is_number text lines delim header first rows,
+    (exists tlk, records {| delimiter := delim; trim_ws := false; has_header := HAS_HEADER; quoting := KEEP_QUOTES |}
+                         no_filter text = header :: tlk) ->
+    records {| delimiter := delim; trim_ws := false; has_header := HAS_HEADER; quoting := REMOVE_QUOTES |}
+            no_filter text = first :: rows ->
+    header <> [] ->
+    Forall (fun h => is_number h = false /\ h <> []) header ->
+    rows <> [] ->
+    Forall (fun row => length row = length header /\
+                       Forall (fun cell => blank cell = false /\ is_number (trim cell) = true /\ plain_num cell) row) rows ->
+    sniff_has_header is_number text lines delim = Ok HAS_HEADER.
+Proof. exact has_header_family_named_numeric_lemma. Qed.
+Print Assumptions C09_has_header_named_numeric_partial.
+
+(* Family (a'): names that are neither capitalized nor upper-case over any numeric data *)
+Theorem C09_has_header_lowername_numeric_partial :
+  forall is_number text lines delim header first rows,
+    (exists tlk, records {| delimiter := delim; trim_ws := false; has_header := HAS_HEADER; quoting := KEEP_QUOTES |}
+                         no_filter text = header :: tlk) ->
+    records {| delimiter := delim; trim_ws := false; has_header := HAS_HEADER; quoting := REMOVE_QUOTES |}
+            no_filter text = first :: rows ->
+    header <> [] ->
+    Forall (fun h => is_number h = false /\ capitalized h = false /\ upper_case h = false) header ->
+    rows <> [] ->
+    Forall (fun row => length row = length header /\
+                       Forall (fun cell => blank cell = false /\ is_number (trim cell) = true) row) rows ->
+    sniff_has_header is_number text lines delim = Ok HAS_HEADER.
+Proof. exact has_header_family_lowername_numeric_lemma. Qed.
+Print Assumptions C09_has_header_lowername_numeric_partial.
+
+(* Family (b): an all-numeric, letter-free first row over numeric data => NO_HEADER *)
+Theorem C09_has_header_all_numeric_partial :
+  forall is_number text lines delim header first rows,
+    (exists tlk, records {| delimiter := delim; trim_ws := false; has_header := HAS_HEADER; quoting := KEEP_QUOTES |}
+                         no_filter text = header :: tlk) ->
+    records {| delimiter := delim; trim_ws := false; has_header := HAS_HEADER; quoting := REMOVE_QUOTES |}
+            no_filter text = first :: rows ->
+    header <> [] ->
+    Forall (fun h => is_number h = true /\ plain_num h) header ->
+    rows <> [] ->
+    Forall (fun row => length row = length header /\
+                       Forall (fun cell => blank cell = false /\ is_number (trim cell) = true /\ plain_num cell) row) rows ->
+    sniff_has_header is_number text lines delim = Ok NO_HEADER.
+Proof. exact has_header_family_all_numeric_lemma. Qed.
+Print Assumptions C09_has_header_all_numeric_partial.
+
+(* ------------------------------------------------------------------ non-vacuity *)
+(* a record with an embedded delimiter, doubled quotes and leading/trailing blanks *)
 Example C09_parse_render_nonvacuous :
   let dl := {| delimiter := 44; trim_ws := false; has_header := NO_HEADER; quoting := REMOVE_QUOTES |} in
   let fields := [[97; 44; 98]; [34; 104; 105; 34]; [32; 120; 32]; []; [49; 46; 53]] in
@@ -31,3 +255,16 @@ Example C09_parse_render_nonvacuous :
     [34; 97; 44; 98; 34; 44; 34; 34; 34; 104; 105; 34; 34; 34; 44; 34; 32; 120; 32; 34; 44; 44; 49; 46; 53]
   /\ parse_line dl (render_line 44 fields) = fields.
 Proof. vm_compute. split; reflexivity. Qed.
+
+(* a concrete typed table with header, output index 2, class labels, a numeric, a text
+   and a void column meets every hypothesis of C09_header_names (TableProofs.Sanity) *)
+Example C09_table_nonvacuous := Sanity.table_sanity.
+
+(* the hypotheses of C09_variable_i_reads_column_i are met whenever there are >= 2 columns *)
+Example C09_terminals_nonvacuous : forall cols strong, (2 <= length cols)%nat ->
+  exists vars, setup_terminals fixed_v cols strong = Ok vars.
+Proof. exact setup_terminals_total. Qed.
+
+(* guess_delimiter: "a;b\n1;2\n" has one ';' per line and no other candidate *)
+Example C09_guess_delimiter_nonvacuous : guess_delimiter [97; 59; 98; 10; 49; 59; 50; 10] 20 = 59.
+Proof. vm_compute. reflexivity. Qed.
